@@ -27,7 +27,7 @@ ASSUMPTIONS = ["RLIMIT_FSIZE stands in for a full file system and applies to eve
                "overflow = the end index of an appended subarray does not fit the index type"]
 EXHAUSTIVE = "the F-fsize grid for the values file and for the indices file"
 KINDS = ['raise', 'badatom', 'badrank', 'unconv', 'overflow', 'numstr', 'bare-scalar', 'atomshaped']
-MUST_HIT = ['iter:generator-whose-close-raises', 'iter:inside-open-context', 'fsize:refused-in-buffered-tail-of-big-item'] + ['iter:' + k for k in KINDS] + ['iter:append', 'iter:iterappend', 'iter:empty-start', 'iter:p=0', 'iter:p>0',
+MUST_HIT = ['iter:>1024-items-before-the-failure', 'iter:one-ndarray-as-iterable', 'iter:generator-whose-close-raises', 'iter:inside-open-context', 'fsize:refused-in-buffered-tail-of-big-item'] + ['iter:' + k for k in KINDS] + ['iter:append', 'iter:iterappend', 'iter:empty-start', 'iter:p=0', 'iter:p>0',
                                              'fsize:values', 'fsize:indices', 'fsize:loud', 'fsize:silent', 'fsize:mid-row', 'fsize:on-boundary']
 IDXMAX = {'int8': 127, 'uint8': 255, 'int16': 32767}
 
@@ -136,7 +136,16 @@ def _exec_iter(ctx, spec):
     with ctx.scratch() as d:
         path = os.path.join(d, 'r.darr')
         start_items = [gens.build_array(dt, (ln,) + atom, {'m': 'raw', 's': spec['seed'] + 100 + i}) for i, ln in enumerate(spec['start'])]
-        good = [gens.build_array(dt, (spec['lens'][i],) + atom, {'m': 'raw', 's': spec['seed'] + 1 + i}) for i in range(n)]
+        lens = list(spec['lens'])
+        if via == 'iterappend-ndarray':
+            lens = [3] * n          # the rows of ONE ndarray are the subarrays: they all have the same length
+        good = [gens.build_array(dt, (lens[i],) + atom, {'m': 'raw', 's': spec['seed'] + 1 + i}) for i in range(n)]
+        nlong = spec.get('nlong', 0)
+        if nlong and via != 'append':
+            # more than a thousand subarrays are completed in the same call before it fails
+            out.cls('iter:>1024-items-before-the-failure')
+            good = [np.full((i % 2,) + atom, i % 100, dtype=dt) for i in range(nlong)] + good
+            n, p = n + nlong, p + nlong
         itype = spec['indextype']
         if kind == 'overflow':
             # start so close to the limit of the index type that the failing item crosses it
@@ -191,6 +200,9 @@ def _exec_iter(ctx, spec):
                 else:
                     seq = list(done) + [bad] + good[p:]
                     it = (c for c in seq) if via == 'iterappend-gen' else _badclose(seq, out) if via == 'iterappend-gen-badclose' else seq
+                    if via == 'iterappend-ndarray' and kind == 'overflow':
+                        out.cls('iter:one-ndarray-as-iterable')
+                        it = np.stack([np.asarray(x, dtype=dt) for x in seq])
                 ra.iterappend(it)
         except Exception as e:
             raised = e
@@ -324,12 +336,28 @@ def iter_grid():
                                        'lens': [2, 0, 1][:n], 'via': via, 'indextype': itype, 'ctx': ['open_arrays', 'iter_arrays'][(n + p) % 2]}
 
 
+def long_grid():
+    for (t, bo), atom, itype in ((('int16', '<'), [], 'int64'), (('float32', '>'), [2], 'int32')):
+        for nlong in (1100, 2100):
+            for kind in ('raise', 'badatom', 'unconv'):
+                for via in ('iterappend-gen', 'iterappend-list'):
+                    for start in ([], [2, 0]):
+                        yield {'f': 'iter', 'dt': {'t': t, 'bo': bo}, 'atom': atom, 'seed': 9, 'start': start, 'n': 2, 'p': 1, 'kind': kind,
+                               'lens': [2, 1], 'via': via, 'indextype': itype, 'nlong': nlong}
+    for itype in sorted(IDXMAX):
+        for p in (0, 1, 2):
+            for atom in ([], [2]):
+                yield {'f': 'iter', 'dt': {'t': 'int32', 'bo': '<'}, 'atom': atom, 'seed': 3, 'start': [], 'n': 3, 'p': p, 'kind': 'overflow',
+                       'lens': [3, 3, 3], 'via': 'iterappend-ndarray', 'indextype': itype}
+
+
 def task_fsize(ctx, col, shard):
     enum_search(ctx, col, (s for i, s in enumerate(fsize_specs()) if i % NSHARDS == shard), lambda s: execute(ctx, s))
 
 
 def task_itergrid(ctx, col, shard):
     enum_search(ctx, col, (s for i, s in enumerate(iter_grid()) if i % NSHARDS == shard), lambda s: execute(ctx, s))
+    enum_search(ctx, col, (s for i, s in enumerate(long_grid()) if i % NSHARDS == shard), lambda s: execute(ctx, s))
 
 
 def task_random(ctx, col, shard, n):
